@@ -476,6 +476,14 @@ func checkC11(p *Prog, r *Report) {
 							found = true
 						}
 					}
+					/* A typed attribute: With(slog.String(key, dir)). */
+					for _, v := range vals {
+						if ac, isC := stripConv(v, false).(*ssa.Call); isC && strings.HasPrefix(calleeName(ac.Common()), "log/slog.") && 2 == len(ac.Common().Args) {
+							if s, ok := constString(ac.Common().Args[0]); ok && s == lkDir {
+								found = true
+							}
+						}
+					}
 				}
 				if ph, ok := arg.(*ssa.Phi); ok {
 					for _, e := range ph.Edges {
